@@ -1,6 +1,7 @@
 """F4 instances for inline caches (C13): hit key = fill key, payload looked up on the same class with the
 instruction's own name, every non-hit/non-fill normal exit clears the slot."""
 import collections
+import re
 from ..facts import op_place, op_local, lastseg, loc_of
 from .. import sem
 
@@ -272,8 +273,22 @@ def class_layout_frozen(rec, F):
                 continue
             n += 1
             d = str(sem.desc_operand(fn, t["args"][0]))
+            owner = fn
+            if fn.kind == "Closure":
+                # a closure of a builder (`fields.iter().for_each(|f| class.add_field(..))`): the receiver is a capture;
+                # it is judged as the value the enclosing function captured
+                parent = F.fn(re.sub(r"::\{closure#\d+\}$", "", fn.path))
+                if parent is not None:
+                    for bi_, si_, st_ in parent.stmts():
+                        r_ = st_["r"]
+                        if r_["k"] == "agg" and r_["adt"] == "closure:" + fn.path:
+                            ds = [str(sem.desc_operand(parent, o_)) for o_ in r_["ops"]]
+                            cls = [x for x in ds if "Class::" in x]
+                            if len(cls) == 1:
+                                d = cls[0]
+                                owner = parent
             built_here = any(("'%s'" % c) in d for c in ("with_inheritance", "bare", "new")) and "Class::" in d
-            why = "receiver constructed in this function" if built_here else LAYOUT_BUILDERS.get(fn.name)
+            why = "receiver constructed in this function" if built_here else LAYOUT_BUILDERS.get(owner.name)
             ok = why is not None
             rec.inst(R, "%s: add_field" % fn.name, ok=ok, loc=loc_of(t["sp"]), note=why or "")
             if not ok:
